@@ -66,4 +66,4 @@ func main() {
 }
 
 var extraCmds = map[string]func(){}
-var order = []string{"consts", "fiat", "slp", "addchain", "asmdata", "listing", "gofacts", "ctir", "arm64glue"}
+var order = []string{"consts", "fiat", "slp", "addchain", "asmdata", "listing", "gofacts", "ctir", "ctirsm4", "arm64glue"}
